@@ -28,8 +28,14 @@ class Sim:
         return self.sz.get(k, 1)
 
 
-def gen_case(rng, cxx=True, fail=True, maxops=14):
+LIBTYPES = [("id", 16), ("arr", 8), ("mref", 8), ("cfg", 32), ("cmd", 24)]
+
+
+def gen_case(rng, cxx=True, fail=True, maxops=14, lib=None):
     szs = rng.choice([(8, 16), (16, 24), (24, 8), (8, 24), (16, 8), (8, 8)])
+    if lib:
+        szs = (lib[1], rng.choice([8, 16, 24]))
+        fail = False
     sz = {"a": szs[0], "b": szs[1], "r": 1}
     if fail and rng.random() < 0.5:
         n = rng.randrange(1, 14)
@@ -92,6 +98,9 @@ def gen_case(rng, cxx=True, fail=True, maxops=14):
         names = ["set", "set", "set", "ins", "ins", "cut", "cut", "det", "det", "cln", "cln", "rel", "res", "res"]
         if cxx:
             names += ["trim", "trim", "skip", "skip", "app", "slen", "slen", "cpy", "cpy", "mov"]
+        if lib and lib[0] == "cmd":
+            # elements made by the harness carry a handler and cannot be copied: no buffer-to-buffer copies
+            names = [x for x in names if x not in ("cln", "cpy")]
         o = rng.choice(names)
         h = pick_h()
         b = sim.h[h]
@@ -176,23 +185,31 @@ def gen_case(rng, cxx=True, fail=True, maxops=14):
                 b["n"] = gb["n"]
                 if o == "mov":
                     gb["n"] = 0
-    return " ".join(["A%d" % szs[0], "B%d" % szs[1], "s" + script] + [str(x) for o in ops for x in o])
+    first = "L%s:%d" % lib if lib else "A%d" % szs[0]
+    return " ".join([first, "B%d" % szs[1], "s" + script] + [str(x) for o in ops for x in o])
 
 
-def sweep_cases():
-    """small-scope sweep: a filled buffer, optionally shared, then one operation at every position"""
+def sweep_cases(tier="quick"):
+    """small-scope sweep: a filled buffer, optionally shared, then one operation at every element position"""
     out = []
+    quick = tier == "quick"
     for s in (8, 16, 24):
         other = {8: 16, 16: 24, 24: 8}[s]
         cap = 64 // s
-        for n in range(0, cap + 1):
+        fills = range(0, cap + 1)
+        if quick and s == 8:
+            fills = (0, 1, 3, 7, 8)
+        set_scripts = ("-", "0", "10", "100", "1100", "11010")
+        if quick:
+            set_scripts = ("-", "0", "10", "1100") if s == 8 else ("-", "0", "10", "100", "1100")
+        for n in fills:
             fill = ["new", 0, "a", 0, 0] + (["set", 0, "a", 0, n * s, "c"])
             for sharedp in (0, 1):
                 pre = fill + (["cln", 1, 0] if sharedp else [])
                 tail = []
                 for p in range(0, cap + 2):
                     for ln in range(0, cap + 2 - min(p, cap)):
-                        for script in ("-", "0", "10", "100", "1100", "11010"):
+                        for script in set_scripts:
                             for src in ("c", "d"):
                                 tail.append((script, ["set", 0, "a", p * s, ln * s, src]))
                         tail.append(("-", ["cut", 0, p * s, ln * s]))
@@ -223,6 +240,7 @@ class C05(DiffProperty):
     mlname = "c05_model"
     driver = "c05_driver.ml"
     harness_src = "c05_typed.cpp"
+    harness_args = ("60",)
     libs = ["mptcore", "mpt++"]
     harness_env = dict(vcheck.ASAN_LEAK_ENV,
                        ASAN_OPTIONS=vcheck.ASAN_LEAK_ENV["ASAN_OPTIONS"] + ":symbolize=0")
@@ -263,7 +281,7 @@ class C05(DiffProperty):
             for j in range(2, len(o)):
                 if o[j].isdigit() and int(o[j]) > 0 and o[0] not in ("cln", "cpy", "mov"):
                     v = int(o[j])
-                    esz = int(hdr[0][1:])
+                    esz = int(hdr[0].split(":")[-1].lstrip("A"))
                     for nv in (0, v - esz, v // 2 // esz * esz):
                         if 0 <= nv < v and not (o[0] == "new" and j == 4):
                             o2 = o[:j] + [str(nv)] + o[j + 1:]
@@ -281,14 +299,16 @@ class C05(DiffProperty):
             cl.add("shared")
         if len(ops) > 3:
             cl.add("history>3")
-        cl.add("size:" + hdr[0])
+        cl.add(("libtype:" if hdr[0][0] == "L" else "size:") + hdr[0])
         return cl
 
     def generate(self, rng, tier):
-        cases = sweep_cases()
+        cases = sweep_cases(tier)
         n = 2500 if tier == "quick" else 60000
         for i in range(n):
             cases.append(gen_case(rng, maxops=14 if tier == "quick" else 25))
+        for i in range(n // 3):
+            cases.append(gen_case(rng, maxops=14 if tier == "quick" else 25, lib=LIBTYPES[i % len(LIBTYPES)]))
         return cases
 
     # -- two passes: the specification monitor judges the log the implementation printed
